@@ -1,3 +1,187 @@
 package main
 
-func (fv *FuncVC) setupStream() {}
+import (
+	"fmt"
+	"go/token"
+	"go/types"
+	"strings"
+
+	"golang.org/x/tools/go/ssa"
+)
+
+// Stream ghosts. Every []byte/string value carries three ghost integers:
+//   g1 = grammar mode at the end of the buffer, g2 = nesting stack, g3 = string-lexer state.
+// They are a function of the whole buffer content read from an empty buffer
+// (mode TOP). The generator advances them at every append:
+//   - a chunk of statically known length is run through the byte-level JSON
+//     automaton below, for all values of its (possibly symbolic) bytes;
+//   - the constant chunks null/true/false are one VALUE token;
+//   - a chunk of unknown length is accepted (a) inside a string when it is a
+//     clean run (plain ASCII bytes and runes accepted by utf8.DecodeRune),
+//     (b) as a VALUE token when it is a whole buffer holding one complete
+//     value, (c) as the member list o[1:] of an open object buffer o;
+//   - anything else sends the mode to MERR, which no contract accepts.
+// In the binary_log build only the token-level rules (b), (c) apply; literal
+// chunks leave the ghosts unconstrained (CBOR leaf encoders carry token-level
+// postconditions justified by their byte-level head/payload postconditions).
+
+const (
+	mERR = iota
+	mTOP
+	mOBJFIRST
+	mOBJNEXT
+	mOBJCOMMA
+	mKEYSTR
+	mAFTERKEYSTR
+	mAFTERKEY
+	mARRFIRST
+	mARRNEXT
+	mARRCOMMA
+	mVALSTROBJ
+	mVALSTRARR
+	mVALSTRTOP
+	mDONE
+	mDONENL
+	mLISTCOMMA
+	mLISTNEXT
+	mVALSTRLIST
+	mMEMBERS // ghost of o[1:] for an open top-level object buffer o with at least one member
+)
+
+var ghostConsts = map[string]int64{
+	"MERR": mERR, "TOP": mTOP, "OBJ_FIRST": mOBJFIRST, "OBJ_NEXT": mOBJNEXT, "OBJ_COMMA": mOBJCOMMA, "KEYSTR": mKEYSTR,
+	"AFTER_KEYSTR": mAFTERKEYSTR, "AFTER_KEY": mAFTERKEY, "ARR_FIRST": mARRFIRST, "ARR_NEXT": mARRNEXT, "ARR_COMMA": mARRCOMMA,
+	"VALSTR_OBJ": mVALSTROBJ, "VALSTR_ARR": mVALSTRARR, "VALSTR_TOP": mVALSTRTOP, "DONE": mDONE, "DONE_NL": mDONENL, "LIST_COMMA": mLISTCOMMA, "LIST_NEXT": mLISTNEXT, "VALSTR_LIST": mVALSTRLIST,
+	"MEMBERS": mMEMBERS, "STK_EMPTY": 1, "STK_OBJ": 7, "LEX_OUT": 0, "LEX_NORMAL": 1, "LEX_ESC": 2, "LEX_ERR": 99,
+}
+
+func (fv *FuncVC) cborBuild() bool { return strings.Contains(fv.P.Tags, "binary_log") }
+
+func (fv *FuncVC) streamPrelude() []string {
+	if fv.Mode != ModeInt {
+		return nil
+	}
+	return []string{
+		"(define-fun ishex ((b Int)) Bool (or (and (<= 48 b) (<= b 57)) (and (<= 97 b) (<= b 102)) (and (<= 65 b) (<= b 70))))",
+		"(define-fun iscont ((b Int)) Bool (and (<= 128 b) (<= b 191)))",
+		"(define-fun plainbyte ((b Int)) Bool (and (<= 32 b) (< b 128) (not (= b 34)) (not (= b 92))))",
+		`(define-fun lexstep ((l Int) (b Int)) Int
+  (ite (= l 1) (ite (= b 34) 0 (ite (= b 92) 2 (ite (< b 32) 99 (ite (< b 128) 1 (ite (< b 194) 99 (ite (<= b 223) 7 (ite (= b 224) 10 (ite (= b 237) 11 (ite (<= b 239) 8 (ite (= b 240) 12 (ite (<= b 243) 9 (ite (= b 244) 13 99))))))))))))
+  (ite (= l 2) (ite (or (= b 34) (= b 92) (= b 47) (= b 98) (= b 102) (= b 110) (= b 114) (= b 116)) 1 (ite (= b 117) 3 99))
+  (ite (and (<= 3 l) (<= l 6)) (ite (ishex b) (ite (= l 6) 1 (+ l 1)) 99)
+  (ite (= l 7) (ite (iscont b) 1 99)
+  (ite (= l 8) (ite (iscont b) 7 99)
+  (ite (= l 9) (ite (iscont b) 8 99)
+  (ite (= l 10) (ite (and (<= 160 b) (<= b 191)) 7 99)
+  (ite (= l 11) (ite (and (<= 128 b) (<= b 159)) 7 99)
+  (ite (= l 12) (ite (and (<= 144 b) (<= b 191)) 8 99)
+  (ite (= l 13) (ite (and (<= 128 b) (<= b 143)) 8 99) 99)))))))))))`,
+		"(define-fun aftervalue ((m Int)) Int (ite (= m 7) 3 (ite (or (= m 8) (= m 10)) 9 (ite (= m 1) 14 (ite (= m 16) 17 0)))))",
+		"(define-fun afterstr ((m Int)) Int (ite (= m 5) 6 (ite (= m 11) 3 (ite (= m 12) 9 (ite (= m 13) 14 (ite (= m 18) 17 0))))))",
+		"(define-fun openstr ((m Int)) Int (ite (or (= m 2) (= m 4)) 5 (ite (= m 7) 11 (ite (or (= m 8) (= m 10)) 12 (ite (= m 1) 13 (ite (= m 16) 18 0))))))",
+		"(define-fun valuepos ((m Int)) Bool (or (= m 7) (= m 8) (= m 10) (= m 1) (= m 16)))",
+		"(define-fun closemode ((s Int)) Int (ite (= (mod s 4) 0) 3 (ite (= (mod s 4) 1) 9 (ite (= (mod s 4) 2) 17 14))))",
+		`(define-fun jlex ((m Int) (s Int) (l Int) (b Int)) Int
+  (ite (= l 0) (ite (and (= b 34) (not (= (openstr m) 0))) 1 0) (lexstep l b)))`,
+		`(define-fun jmode ((m Int) (s Int) (l Int) (b Int)) Int
+  (ite (not (= l 0)) (let ((nl (lexstep l b))) (ite (= nl 99) 0 (ite (= nl 0) (afterstr m) m)))
+  (ite (= b 34) (openstr m)
+  (ite (= b 123) (ite (valuepos m) 2 0)
+  (ite (= b 91) (ite (valuepos m) 8 0)
+  (ite (= b 125) (ite (or (= m 2) (= m 3)) (closemode s) 0)
+  (ite (= b 93) (ite (or (= m 8) (= m 9)) (closemode s) 0)
+  (ite (= b 44) (ite (= m 3) 4 (ite (= m 9) 10 (ite (or (= m 14) (= m 17)) 16 0)))
+  (ite (= b 58) (ite (= m 6) 7 0)
+  (ite (= b 10) (ite (= m 14) 15 0) 0))))))))))`,
+		`(define-fun jstk ((m Int) (s Int) (l Int) (b Int)) Int
+  (ite (not (= l 0)) s
+  (ite (or (= b 123) (= b 91)) (+ (* 4 s) (ite (= m 7) 0 (ite (= m 16) 2 (ite (= m 1) 3 1))))
+  (ite (or (= b 125) (= b 93)) (div s 4) s))))`,
+		fmt.Sprintf("(declare-fun cleanrun ((Array Int Int) Int Int) Bool)"),
+		fmt.Sprintf("(declare-fun validrune ((Array Int Int) Int Int) Bool)"),
+	}
+}
+
+func (fv *FuncVC) ghostTop(name string) string {
+	return smtAnd(app("=", app("Bytes_g1", name), fmt.Sprint(mTOP)), app("=", app("Bytes_g2", name), "1"), app("=", app("Bytes_g3", name), "0"))
+}
+
+type sliceOrigin struct {
+	base   Term
+	lo, hi string
+}
+
+func (fv *FuncVC) setupStream() {
+	if fv.C == nil || fv.C.Mode != ModeInt {
+		return
+	}
+	fv.streamAppend = fv.doStreamAppend
+}
+
+// cleanrun axioms, asserted for functions that declare `flag stream`.
+func (fv *FuncVC) streamAxioms() {
+	if fv.C == nil || fv.C.Flags["stream"] == "" || fv.Mode != ModeInt || fv.cborBuild() {
+		return
+	}
+	fv.ensureSort(SBytes)
+	fv.assert("(forall ((a (Array Int Int)) (i Int)) (! (cleanrun a i i) :pattern ((cleanrun a i i))))")
+	fv.assert("(forall ((a (Array Int Int)) (i Int) (j Int)) (! (=> (and (cleanrun a i j) (plainbyte (select a j))) (cleanrun a i (+ j 1))) :pattern ((cleanrun a i j))))")
+	fv.assert("(forall ((a (Array Int Int)) (i Int) (j Int) (n Int)) (! (=> (and (cleanrun a i j) (validrune a j n)) (cleanrun a i (+ j n))) :pattern ((cleanrun a i j) (validrune a j n))))")
+	fv.trustedUse["stream: a run of plain ASCII bytes and of runes accepted by utf8.DecodeRune keeps the JSON string lexer in its normal state (plain-byte half is checked as lemma json#lemma(plainbyte); the rune half is the trusted link to unicode/utf8)"] = true
+}
+
+func (fv *FuncVC) doStreamAppend(r, d, x Term, xv ssa.Value, pos token.Pos) {
+	g1 := func(t Term) string { return app("Bytes_g1", t.S) }
+	g2 := func(t Term) string { return app("Bytes_g2", t.S) }
+	g3 := func(t Term) string { return app("Bytes_g3", t.S) }
+	set := func(m, s, l string) {
+		fv.assert(smtAnd(app("=", g1(r), m), app("=", g2(r), s), app("=", g3(r), l)))
+	}
+	if n, ok := constLenOf(xv); ok && n <= 64 {
+		if fv.cborBuild() {
+			return // ghosts of literal CBOR chunks are not derived from bytes
+		}
+		if c, isConst := xv.(*ssa.Const); isConst {
+			switch constantString(c) {
+			case "null", "true", "false":
+				set(fmt.Sprintf("(ite (= %s 0) (aftervalue %s) 0)", g3(d), g1(d)), g2(d), g3(d))
+				return
+			}
+		}
+		m, s, l := g1(d), g2(d), g3(d)
+		for i := int64(0); i < n; i++ {
+			b := fv.elemAt(x, fv.ilit(i))
+			// name intermediate states to keep terms linear
+			nm := fv.fresh("gm", SMath)
+			ns := fv.fresh("gs", SMath)
+			nl := fv.fresh("gl", SMath)
+			fv.assert(smtAnd(app("=", nm.S, app("jmode", m, s, l, b)), app("=", ns.S, app("jstk", m, s, l, b)), app("=", nl.S, app("jlex", m, s, l, b))))
+			m, s, l = nm.S, ns.S, nl.S
+		}
+		set(m, s, l)
+		return
+	}
+	// chunk of unknown length
+	inString := "false"
+	if !fv.cborBuild() {
+		inString = smtAnd(app("=", g3(d), "1"), app("cleanrun", fv.arrOf(x), fv.offOf(x), fv.iadd(fv.offOf(x), fv.lenOf(x))))
+	}
+	whole := smtAnd(app("=", g3(d), "0"), app("=", g3(x), "0"), app("=", g1(x), fmt.Sprint(mDONE)), app("=", g2(x), "1"))
+	list := smtAnd(app("=", g3(d), "0"), app("=", g3(x), "0"), app("=", g1(x), fmt.Sprint(mLISTNEXT)), app("=", g2(x), "1"), app("=", g1(d), fmt.Sprint(mARRFIRST)))
+	members := smtAnd(app("=", g3(d), "0"), app("=", g3(x), "0"), app("=", g1(x), fmt.Sprint(mMEMBERS)), app("=", g2(x), "7"),
+		smtOr(app("=", g1(d), fmt.Sprint(mOBJFIRST)), app("=", g1(d), fmt.Sprint(mOBJCOMMA))))
+	vm := "(aftervalue " + g1(d) + ")"
+	if fv.cborBuild() {
+		vm = fv.cborAfterValue(g1(d))
+	}
+	set(fmt.Sprintf("(ite %s %s (ite %s %s (ite %s %d (ite %s %d 0))))", inString, g1(d), whole, vm, members, mOBJNEXT, list, mARRNEXT),
+		g2(d),
+		fmt.Sprintf("(ite %s 1 0)", inString))
+}
+
+// cborAfterValue: token-level successor mode for one complete data item.
+func (fv *FuncVC) cborAfterValue(m string) string {
+	return fmt.Sprintf("(ite (= %s %d) %d (ite (or (= %s %d) (= %s %d)) %d (ite (= %s %d) %d (ite (or (= %s %d) (= %s %d)) %d 0))))", m, mAFTERKEY, mOBJNEXT, m, mARRFIRST, m, mARRNEXT, mARRNEXT, m, mTOP, mDONE, m, mDONE, m, mLISTNEXT, mLISTNEXT)
+}
+
+var _ = types.Typ
